@@ -158,6 +158,21 @@ func crashSite(report string) string {
 	return head
 }
 
+// lateReply: the time bounds of this check (a reply within 3 s, a probe within 1.5 s) are generous for a
+// server that works and say nothing when the machine is overloaded; a bound that is missed is therefore
+// not a verdict yet. The connection is read for another 20 s: a reply that does arrive means "slow"
+// (counted, the case goes on), only silence for the whole time means that the server hangs.
+func lateReply(c *srv.Conn, err error) error {
+	if err != srv.ErrTimeout {
+		return err
+	}
+	if _, err2 := c.Read(20 * time.Second); err2 != nil {
+		return err
+	}
+	kit.C.Label("reply-arrived-after-the-time-bound(machine-overloaded)", 1)
+	return nil
+}
+
 // tryInput sends one command and applies the oracle. nil = the server answered and keeps serving.
 func tryInput(cmd kit.Cmd) *finding {
 	if err := ensureServer(); err != nil {
@@ -183,6 +198,9 @@ func tryInput(cmd kit.Cmd) *finding {
 		timeout = 400 * time.Millisecond // either a prompt reply or a legitimate block
 	}
 	_, err := conn.Do(timeout, cmd.Bytes()...)
+	if err == srv.ErrTimeout && !(blocking && forever) {
+		err = lateReply(conn, err)
+	}
 	dead := func(kind string, msg string) *finding {
 		f := &finding{Kind: kind, Input: cmd, Msg: msg}
 		if server.WaitExit(500 * time.Millisecond) {
@@ -205,7 +223,7 @@ func tryInput(cmd kit.Cmd) *finding {
 		if blocking && forever && err == srv.ErrTimeout {
 			kit.C.Label("legit-infinite-block", 1)
 		} else if err == srv.ErrTimeout {
-			return dead("no-reply", fmt.Sprintf("no reply within %v", timeout))
+			return dead("no-reply", fmt.Sprintf("no reply within %v, nor in the 20 s after that", timeout))
 		} else {
 			return dead("no-reply", fmt.Sprintf("connection failed while waiting for the reply: %v", err))
 		}
@@ -230,14 +248,14 @@ func tryInput(cmd kit.Cmd) *finding {
 	}
 	sort.Strings(keys)
 	for _, k := range keys {
-		if _, err := probe.DoS(1500*time.Millisecond, "TYPE", k); err != nil {
+		if _, err := probe.DoS(1500*time.Millisecond, "TYPE", k); lateReply(probe, err) != nil {
 			return dead("wedged", fmt.Sprintf("TYPE %s after the input: %v", k, err))
 		}
 	}
 	// the input may have created arbitrary keys: also probe every key argument that is not seeded
 	for _, a := range cmd[1:] {
 		if len(a) > 0 && len(a) < 64 && !named[string(a)] {
-			if _, err := probe.Do(1500*time.Millisecond, []byte("EXISTS"), []byte(a)); err != nil {
+			if _, err := probe.Do(1500*time.Millisecond, []byte("EXISTS"), []byte(a)); lateReply(probe, err) != nil {
 				return dead("wedged", fmt.Sprintf("EXISTS %q after the input: %v", string(a), err))
 			}
 		}
@@ -250,6 +268,7 @@ func tryInput(cmd kit.Cmd) *finding {
 			return dead("dead-to-others", fmt.Sprintf("fresh connection refused: %v", err))
 		}
 		_, err = c.DoS(1500*time.Millisecond, "PING")
+		err = lateReply(c, err)
 		c.Close()
 		if err != nil {
 			return dead("dead-to-others", fmt.Sprintf("PING on a fresh connection: %v", err))
